@@ -176,7 +176,19 @@ fn mutate(rng: &mut Rng, text: &str) -> String {
         7 => { let k = rng.below(n); lines[k] = format!("1e3 {}", lines[k]); }
         8 => { return lines.join("\r\n"); }
         9 => { return lines.iter().map(|l| l.replace(' ', "\t")).collect::<Vec<_>>().join("\n"); }
-        10 => { let k = rng.below(n); lines[k].push_str(" \u{00e9}\u{2603}x"); }
+        10 => {
+            // non-ASCII tokens, short and LONG (multi-byte characters at every byte offset up to 20: a parser that quotes or truncates the
+            // offending token by BYTES must not split a character)
+            let k = rng.below(n);
+            let pad = rng.below(21);
+            let tok = format!("{}{}", "7".repeat(pad), ["\u{00e9}\u{2603}x", "\u{1d7d9}\u{1d7da}\u{1d7db}", "\u{2603}\u{2603}\u{2603}\u{2603}\u{2603}", "\u{00e9}"][rng.below(4)]);
+            if rng.coin(1, 2) { lines[k].push(' '); lines[k].push_str(&tok); } else {
+                let mut toks: Vec<String> = lines[k].split(' ').map(|t| t.to_string()).collect();
+                let t = rng.below(toks.len().max(1));
+                if toks.is_empty() { toks.push(tok); } else { toks[t] = tok; }
+                lines[k] = toks.join(" ");
+            }
+        }
         11 => {
             // out-of-range index: append nrows+1 (declared) to a column line
             let nrows: usize = lines[0].split_whitespace().nth(1).and_then(|t| t.parse().ok()).unwrap_or(3);
